@@ -118,7 +118,9 @@ def plain(v):
     elif isinstance(v, int):
         return int(v)
     elif isinstance(v, (bytes, bytearray)):
-        return bytes(v)
+        # a real copy: a snapshot must not keep the tree's own objects
+        # alive (their identity and lifetime are the library's business)
+        return bytes(bytearray(v))
     elif isinstance(v, dict):
         return {plain(k): plain(x) for k, x in v.items()}
     elif isinstance(v, list):
